@@ -1515,6 +1515,10 @@ func (l *lexer) scanCmdSubst(r rune) bool {
 			col:      l.col,
 		}
 		ll.mark(off)
+		if len(ll.aliases) != 0 {
+			// positions are frozen during alias substitution
+			ll.pos = l.pos
+		}
 		ll.last.Store(ll.pos)
 		verifNest(l, ll)
 		verifPoint(ll, EvStart)
